@@ -6,6 +6,7 @@ mod gen;
 mod minimize;
 mod model;
 mod oracle;
+mod oracle2;
 mod prog;
 mod sim;
 mod tasks;
@@ -40,6 +41,12 @@ fn main() {
         "replay" => {
             let path = args.get(2).expect("replay <file>");
             driver::replay_main(path)
+        }
+        "show" => {
+            let path = args.get(2).expect("show <replay file>");
+            let s = std::fs::read_to_string(path).expect("read");
+            let rf: driver::ReplayFile = serde_json::from_str(&s).expect("parse");
+            driver::run_and_print(&rf.case, true)
         }
         "runcase" => {
             // evaluate a case file in this fresh process: prints "VERDICT <json>" (used by the
